@@ -34,7 +34,7 @@ WORKERS = {"quick": 12, "thorough": 16}
 
 NEIGH = ["rec2", "rec-x", "re", "recp1"]
 
-REC_OPS = ["commit", "commit", "commit_exts", "create_patch", "discard", "reopen", "reopen", "merge_other",
+REC_OPS = ["with_exc", "commit", "commit", "commit_exts", "create_patch", "discard", "reopen", "reopen", "merge_other",
            "merge_same", "readall", "find", "list", "neigh_w", "neigh_del", "open_x", "copy_into_patch",
            "verify_old", "stub", "close_nocommit", "write_fail", "prefix_rw", "stale_handle"]
 
@@ -217,6 +217,42 @@ class Run:
                 finally:
                     # get a consistent object again for the rest of the history
                     RE.safe_close(self.rec, commit=False)
+                    gc.collect()
+                    self.rec = self.cls(self.d / "rec", "r+")
+            elif k == "with_exc":
+                # the record used as context manager, the block left by an exception while NO patch is open
+                files = list(rec.ih5_files)
+                had_w = rec._has_writable
+                rec.close()
+                if had_w and RE.is_committed_on_disk(files[-1]):
+                    ro = self.cls(files, "r")
+                    self.commits.append({"files": [str(p) for p in files], "dump": E.dump_walk(ro)})
+                    ro.close()
+                for p in files:
+                    if RE.is_committed_on_disk(p):
+                        self.ledger.add(p)
+                        if RE.sidecar(p).exists():
+                            self.ledger.add(RE.sidecar(p))
+                self.rec = None
+                variant = rng.choice(["r-keyerror", "r+-commit-then-refused-write", "r-refused-write"])
+                try:
+                    with self.cls(self.d / "rec", "r" if variant.startswith("r-") else "r+") as r:
+                        if variant == "r-keyerror":
+                            r["no/such/node"]
+                        elif variant == "r-refused-write":
+                            r["zz-refused"] = 1
+                        else:
+                            r["within-with-block"] = len(self.calls)
+                            r.commit_patch()
+                            for p in r.ih5_files:
+                                self.ledger.add(p)
+                                if RE.sidecar(p).exists():
+                                    self.ledger.add(RE.sidecar(p))
+                            r["zz-refused-after-commit"] = 1
+                    raise AssertionError("the block should have been left by an exception")
+                except (KeyError, ValueError):
+                    pass
+                finally:
                     gc.collect()
                     self.rec = self.cls(self.d / "rec", "r+")
             elif k == "stub":
